@@ -88,11 +88,17 @@ const IO_FLAG_TIMEOUT: usize = 1 << 30;
 
 #[cfg(feature = "io_timeout")]
 fn timeout_handler(data: TimerData) {
+    #[cfg(may_verif)]
+    if data.event_data.is_null() {
+        crate::verif::note("io_timer", "fire:null");
+    }
     if data.event_data.is_null() {
         return;
     }
 
     let event_data = unsafe { &mut *data.event_data };
+    #[cfg(may_verif)]
+    event_data.io_flag.mark("t.fire", 0, 0);
     // remove the event timer
     event_data.timer.borrow_mut().take();
 
@@ -166,6 +172,8 @@ impl EventData {
         // it's safe to remove the timer since we are running the timer_list in the same thread
         #[cfg(feature = "io_timeout")]
         self.timer.borrow_mut().take().map(|h| {
+            #[cfg(may_verif)]
+            self.io_flag.mark("t.disarm", 0, 0);
             unsafe {
                 // tell the timer function not to cancel the io
                 // it's not always true that you can really remove the timer entry
@@ -200,6 +208,8 @@ impl EventData {
         // it's safe to remove the timer since we are running the timer_list in the same thread
         #[cfg(feature = "io_timeout")]
         self.timer.borrow_mut().take().map(|h| {
+            #[cfg(may_verif)]
+            self.io_flag.mark("t.disarm", 0, 0);
             unsafe {
                 // tell the timer function not to cancel the io
                 // it's not always true that you can really remove the timer entry
@@ -220,6 +230,8 @@ impl IoData {
     pub fn new<T: AsRawFd + ?Sized>(t: &T) -> Self {
         let fd = t.as_raw_fd();
         let event_data = Arc::new(EventData::new(fd));
+        #[cfg(may_verif)]
+        crate::verif::born("EventData", Arc::as_ptr(&event_data));
         IoData(event_data)
     }
 
